@@ -53,15 +53,15 @@ def frame_ids(xyz, scale):
     return out
 
 
-def write_files(dirname, n_frames, exts, n_atoms=12, seed=0):
+def write_files(dirname, n_frames, exts, n_atoms=12, seed=0, cell=True):
     os.makedirs(dirname, exist_ok=True)
-    t = make_traj(n_frames, n_atoms, seed)
+    t = make_traj(n_frames, n_atoms, seed, cell=cell)
     top = os.path.join(dirname, "top_%d.pdb" % n_atoms)
     if not os.path.exists(top):
         t[0].save(top)
     paths = {}
     for e in exts:
-        p = os.path.join(dirname, "t%d_%d.%s" % (n_frames, n_atoms, e))
+        p = os.path.join(dirname, "t%d_%d%s.%s" % (n_frames, n_atoms, "" if cell else "_nocell", e))
         if not os.path.exists(p):
             t.save(p)
         paths[e] = p
